@@ -92,8 +92,11 @@ def check(repo: Repo, run: Run) -> None:
     interp = sym.Interp(repo)
     ci = repo.cls("pykdebugparser", "PyKdebugParser")
     pk = ci.module
-    dbg = {n: consteval.evaluate(repo, pk, pk.constants[n]) for n in ("DBG_TRACE", "DBG_FSYSTEM", "DBG_BSD")
-           if n in pk.constants}
+    dbg = {}
+    for n in ("DBG_TRACE", "DBG_FSYSTEM", "DBG_BSD"):
+        found = repo.lookup(f"{pk.name}.{n}")          # follows `from .kevent import DBG_TRACE` as well
+        if found and found[0] == "const":
+            dbg[n] = consteval.evaluate(repo, found[1], found[2])
     if set(dbg) != {"DBG_TRACE", "DBG_FSYSTEM", "DBG_BSD"}:
         raise AnalysisError("anchor vanished: DBG_TRACE / DBG_FSYSTEM / DBG_BSD constants")
     run.ob("R3", MOD, "constants", "class numbers", dbg == {"DBG_TRACE": 7, "DBG_FSYSTEM": 3, "DBG_BSD": 4},
